@@ -150,6 +150,17 @@ func csStoredField(v ssa.Value, recv ssa.Value, depth int) string {
 
 // CodecSeq extracts the wire operations of fn (receiver = first parameter) in
 // the order of the blocks that dominate the success return (the spine).
+var seqDepth int
+var seqInline bool
+
+// CodecSeqInline: as CodecSeq, with the operations of same-receiver helpers handed the stream standing at
+// their call sites.
+func CodecSeqInline(fn *ssa.Function) []CodecOp {
+	seqInline = true
+	defer func() { seqInline = false }()
+	return CodecSeq(fn)
+}
+
 func CodecSeq(fn *ssa.Function) []CodecOp {
 	if fn == nil || len(fn.Blocks) == 0 || len(fn.Params) == 0 {
 		return nil
@@ -185,6 +196,16 @@ func CodecSeq(fn *ssa.Function) []CodecOp {
 			}
 			if _, isDefer := in.(*ssa.Defer); isDefer {
 				continue
+			}
+			// helper of the same codec on the same receiver, handed the stream: its operations stand here
+			if callee := ci.Common().StaticCallee(); callee != nil && len(callee.Blocks) > 0 && seqInline && seqDepth < 3 {
+				a := ci.Common().Args
+				if len(a) >= 2 && a[0] == recv && callee.Signature.Recv() != nil && !isCodecMethodName(callee.Name()) && passesStream(fn, a[1:]) {
+					seqDepth++
+					out = append(out, CodecSeq(callee)...)
+					seqDepth--
+					continue
+				}
 			}
 			kind, write, operand, ok := csClassify(ci)
 			if !ok {
